@@ -8,6 +8,7 @@ import copy
 import json
 import math
 import os
+import shutil
 import sys
 
 from .. import gw, lib
@@ -20,7 +21,9 @@ from marshmallow import ValidationError, fields as mm_fields  # noqa: E402
 from aiomysensors import exceptions as exc  # noqa: E402
 from aiomysensors.model.message import Message  # noqa: E402
 from aiomysensors.model.node import Child, Node  # noqa: E402
+from aiomysensors.gateway import Config, Gateway  # noqa: E402
 from aiomysensors.persistence import Persistence  # noqa: E402
+from aiomysensors.transport import Transport  # noqa: E402
 
 DRIVER = "DriverPersist.lean"
 MAXD = sys.get_int_max_str_digits()
@@ -1076,13 +1079,274 @@ def sample_registry() -> dict:
     return {0: a, 1: b}
 
 
+# ---- C14: the directory around the persistence file ---------------------------------------------
+#
+# The property speaks about "loading" as a whole, observed at Persistence.load / Gateway.__aenter__: whatever load
+# decides to read must fail with PersistenceReadError only.  Files next to the persistence file (a backup, a temporary
+# file of an interrupted write, a lock, an editor's copy) are ignored by the code the model was written against; a
+# load that consults them (fallback, recovery, locking) is held to the same statement.  The scenarios below place
+# such files, in every content class of the property, next to a persistence file that is missing, empty, valid or
+# damaged.  The Lean model has no sibling files: where it is compared, the comparison says that the outcome is the
+# one of the persistence file alone.
+
+MAIN_NAME = "mysensors.json"
+DIRECTORY = "<directory>"        # content marker: the entry is a directory, not a file
+
+
+class IdleTransport(Transport):
+    """Connects to nothing and never delivers a line."""
+
+    async def connect(self) -> None:
+        pass
+
+    async def disconnect(self) -> None:
+        pass
+
+    async def read(self) -> str:
+        await asyncio.Event().wait()
+        return ""
+
+    async def write(self, decoded_message: str) -> None:
+        pass
+
+
+def sibling_names(name: str) -> list[tuple[str, str]]:
+    """(kind, file name): the usual names of a backup / temporary / lock / editor file kept next to `name`."""
+    stem, ext = os.path.splitext(name)
+    out = [(f"<file>{sfx}", name + sfx) for sfx in (".bak", ".tmp", ".lock", "~", ".old", ".new", ".backup", ".orig", ".1", ".swp", ".part", ".save")]
+    out += [(f"<stem>{sfx}", stem + sfx) for sfx in (".bak", ".tmp", ".lock")]
+    out += [(f"<stem>{mid}<ext>", stem + mid + ext) for mid in (".bak", ".tmp", "-backup", ".old")]
+    out += [(".<file>", "." + name), (".<file>.tmp", "." + name + ".tmp"), (".<file>.swp", "." + name + ".swp"), (".<file>.lock", "." + name + ".lock"),
+            ("#<file>#", "#" + name + "#"), ("~<file>", "~" + name)]
+    return out
+
+
+def file_contents(good: bytes, other: bytes) -> list[tuple[str, object]]:
+    """(label, bytes or DIRECTORY): one content per class named by the property, read/parse-stage failures first."""
+    cut = good.rindex(b'"', 0, len(good) // 2)      # inside a string literal
+    return [
+        ("truncated", good[:len(good) // 2]),
+        ("undecodable", good[:cut] + b"\xff\xfe" + good[cut:]),
+        ("deep nesting", b"[" * 100000),
+        ("directory", DIRECTORY),
+        ("huge integer", b'{"1": ' + b"9" * (MAXD + 1) + b"}"),
+        ("truncated by one byte", good[:-1]),
+        ("not JSON", b"bad content"),
+        ("undecodable start", b"\xff\xfe" + good),
+        ("deep objects", b'{"a":' * 100000),
+        ("wrong shape: array", b"[]"),
+        ("wrong shape: number", b"12345\n"),            # what a lock file holding a process id looks like
+        ("wrong shape: record", b'{"1": 5}'),
+        ("wrong shape: child", b'{"1": {"node_id": 1, "node_type": 17, "protocol_version": "2.0", "children": {"1": 5}}}'),
+        ("missing field", b'{"1": {"node_id": 1}}'),
+        ("out of range", b'{"1": {"node_id": 1, "node_type": 17, "protocol_version": "2.0", "battery_level": 150}}'),
+        ("unknown field", b'{"1": {"node_id": 1, "node_type": 17, "protocol_version": "2.0", "extra": 1}}'),
+        ("empty", b""),
+        ("whitespace", b" \n"),
+        ("valid", good),
+        ("valid, other registry", other),
+    ]
+
+
+def main_states(good: bytes) -> list[tuple[str, object]]:
+    return [("missing", None), ("empty", b""), ("valid", good), ("truncated", good[:len(good) // 2]), ("undecodable", b"\xff\xfe" + good),
+            ("wrong shape", b'{"1": 5}'), ("deep nesting", b"[" * 100000), ("directory", DIRECTORY)]
+
+
+def shown(data) -> str:
+    if data is None or isinstance(data, str):
+        return str(data)
+    return data[:200].decode("utf-8", "replace") + (f"… ({len(data)} bytes)" if len(data) > 200 else "")
+
+
+def place(path: str, data) -> None:
+    if data is None:
+        return
+    if isinstance(data, str):      # DIRECTORY
+        os.mkdir(path)
+        return
+    with open(path, "wb") as f:
+        f.write(data)
+
+
+def snapshot(path: str):
+    if os.path.isfile(path):
+        with open(path, "rb") as f:
+            return f.read()
+    return None
+
+
+async def sessions_leave(k: int, via: str, reg_of) -> dict:
+    """Run k ordinary sessions on a fresh directory; return {file name: bytes} of everything the library left there
+    besides the persistence file itself (nothing, for the code the model was written against)."""
+    d = fresh_path(".sessions")
+    os.mkdir(d)
+    p = os.path.join(d, MAIN_NAME)
+    try:
+        for i in range(k):
+            if via == "gateway":
+                g = Gateway(IdleTransport(), Config(persistence_file=p))
+                async with g:
+                    for key, n in reg_of(i).items():
+                        g.nodes[key] = n
+                    await asyncio.sleep(0)
+            else:
+                nodes: dict = {}
+                pers = Persistence(nodes, p)
+                await pers.load()
+                nodes.update(reg_of(i))
+                await pers.save()
+        left = {}
+        for name in sorted(os.listdir(d)):
+            if name != MAIN_NAME:
+                q = os.path.join(d, name)
+                left[name] = snapshot(q) if os.path.isfile(q) else DIRECTORY
+        return left
+    finally:
+        shutil.rmtree(d, ignore_errors=True)
+
+
+def dir_scenarios(rng, tier: str, good: bytes, other: bytes, left: dict) -> list[dict]:
+    """Directory scenarios: {main: (label, content), siblings: [(kind, name, label, content)], into: bool, via}."""
+    names = [("left by the library's own sessions", n) for n in left] + [x for x in sibling_names(MAIN_NAME) if x[1] not in left]
+    contents = file_contents(good, other)
+    mains = main_states(good)
+    out = []
+    # (a) one sibling: every name x every content with the persistence file missing; the other main states take every
+    #     name with a rotating fifth of the contents (quick tier) or all of them (thorough); names the library itself
+    #     uses are never thinned out.  Quick tier: the two entry points alternate; thorough: both
+    for mi, (mlabel, mdata) in enumerate(mains):
+        for ni, (kind, name) in enumerate(names):
+            for ci, (clabel, cdata) in enumerate(contents):
+                if tier == "quick" and mdata is not None and name not in left and (ci + ni + mi) % 5 != 0:
+                    continue
+                vias = ("load", "gateway") if (name in left or tier == "thorough") else (("load", "gateway")[(mi + ni + ci) % 2],)
+                for via in vias:
+                    out.append({"main": (mlabel, mdata), "siblings": [(kind, name, clabel, cdata)], "into": rng.random() < 0.4, "via": via,
+                                "newer": True, "label": "sibling"})
+    # (b) what the library's own sessions left behind, all of it damaged in the same way at once (a crash)
+    if left:
+        for mlabel, mdata in mains:
+            for clabel, cdata in contents:
+                sibs = [("left by the library's own sessions", n, clabel, cdata) for n in left]
+                out.append({"main": (mlabel, mdata), "siblings": sibs, "into": False, "via": "gateway", "newer": True, "label": "crash"})
+            for clabel, dmg in (("as the library left it", lambda b: b), ("as left, cut in half", lambda b: b[:len(b) // 2]),
+                                ("as left, cut by one byte", lambda b: b[:-1]), ("as left, undecodable", lambda b: b"\xff\xfe" + b),
+                                ("as left, emptied", lambda b: b"")):
+                sibs = [("left by the library's own sessions", n, clabel, dmg(b) if isinstance(b, bytes) else b) for n, b in left.items()]
+                for via in ("load", "gateway"):
+                    out.append({"main": (mlabel, mdata), "siblings": sibs, "into": False, "via": via, "newer": True, "label": "crash"})
+    # (c) several siblings at once, random
+    for _ in range(200 if tier == "quick" else 2500):
+        mlabel, mdata = mains[0] if rng.random() < 0.5 else rng.choice(mains)
+        sibs = []
+        for kind, name in rng.sample(names, rng.randint(2, 5)):
+            clabel, cdata = rng.choice(contents)
+            sibs.append((kind, name, clabel, cdata))
+        out.append({"main": (mlabel, mdata), "siblings": sibs, "into": rng.random() < 0.4, "via": rng.choice(["load", "gateway"]),
+                    "newer": rng.random() < 0.5, "label": "siblings"})
+    return out
+
+
+async def run_dir_case(c: dict) -> None:
+    """Materialise the directory, load once (Persistence.load or Gateway.__aenter__), record what happened."""
+    d = fresh_path(".dir")
+    os.mkdir(d)
+    p = os.path.join(d, MAIN_NAME)
+    try:
+        mdata = c["main"][1]
+        place(p, mdata)
+        for _kind, name, _clabel, cdata in c["siblings"]:
+            q = os.path.join(d, name)
+            place(q, cdata)
+            if not c["newer"] and mdata is not None:
+                os.utime(q, (1_000_000_000, 1_000_000_000), follow_symlinks=False)      # older than the persistence file
+        cur = sample_registry() if c["into"] else {}
+        c["before"] = render_nodes(cur)
+        c["pre_ops"] = reg_ops(cur)
+        c["exit"] = None
+        if c["via"] == "load":
+            c["out"], nodes = await impl_load(p, cur)
+            c["snap"] = snapshot(p)
+        else:
+            g = Gateway(IdleTransport(), Config(persistence_file=p))
+            g.nodes.update(cur)
+            nodes = g.nodes
+            try:
+                await g.__aenter__()
+            except BaseException as e:  # noqa: BLE001
+                c["out"] = outcome_of(e)
+                c["snap"] = snapshot(p)
+            else:
+                # observed before the save task got to run: what load itself did
+                c["snap"] = snapshot(p)
+                c["out"] = "ok " + render_nodes(nodes)
+                try:
+                    await g.__aexit__(None, None, None)
+                except BaseException as e:  # noqa: BLE001
+                    c["exit"] = outcome_of(e)
+        c["nodes"] = nodes
+        c["back"], c["loaded"] = None, None
+        if mdata is None and c["snap"] is not None:
+            # what the created file holds, read in a directory of its own
+            q = fresh_path()
+            with open(q, "wb") as f:
+                f.write(c["snap"])
+            c["back"], c["loaded"] = await impl_load(q)
+            os.unlink(q)
+    finally:
+        shutil.rmtree(d, ignore_errors=True)
+
+
+def dir_case_record(c: dict) -> dict:
+    """The replayable description of a directory scenario."""
+    mlabel, mdata = c["main"]
+    steps = [f"a directory holds {MAIN_NAME}: {mlabel}" if mdata is not None else f"a directory holds no {MAIN_NAME}"]
+    for kind, name, clabel, cdata in c["siblings"]:
+        steps.append(f"and {name} ({kind}): {clabel}" + ("" if c["newer"] or mdata is None else ", modified earlier than the persistence file"))
+    steps.append(("Persistence(nodes, path).load()" if c["via"] == "load" else "async with Gateway(transport, Config(persistence_file=path))")
+                 + (" with an empty registry" if c["before"] == "[]" else " with the registry given under 'into'"))
+    steps.append("-> " + c["out"][:300])
+    return {"label": "directory:" + c["label"], "steps": steps, "path": MAIN_NAME, "main": {"state": mlabel, "bytes": shown(mdata)},
+            "siblings": [{"name": name, "content": clabel, "bytes": shown(cdata)} for _k, name, clabel, cdata in c["siblings"]],
+            "into": c["before"], "via": c["via"], "outcome": c["out"][:600]}
+
+
+def judge_dir_case(corr: Corr, c: dict) -> None:
+    """C14 restated for a directory: load succeeds or raises PersistenceReadError, nothing else; a missing persistence
+    file is not an error and is created holding the current registry; an empty one loads as an empty registry."""
+    mlabel, mdata = c["main"]
+    out = c["out"]
+    case = dir_case_record(c)
+    if not (out.startswith("ok ") or out.startswith("err persistenceRead")):
+        corr.violate(f"load raised something other than PersistenceReadError: {out}", case)
+    elif mdata is None:
+        if not out.startswith("ok "):
+            corr.violate(f"a missing persistence file is an error: {out}", case)
+        elif c["snap"] is None:
+            corr.violate("a missing persistence file was not created", case)
+        elif not c["back"].startswith("ok ") or same_registry(c["nodes"], c["loaded"]):
+            corr.violate("the file created for a missing path does not hold the current registry: "
+                         + (c["back"] if not c["back"].startswith("ok ") else str(same_registry(c["nodes"], c["loaded"]))),
+                         {**case, "file": c["snap"][:1500].decode("utf-8", "replace")})
+    elif mdata == b"" and out != "ok " + c["before"]:
+        corr.violate(f"an empty file did not load as an empty registry: {out}", case)
+    if c["exit"] is not None:
+        corr.notes.append(f"leaving the gateway context after a directory scenario raised {c['exit']} ({case['steps']})")
+
+
 def run_c14(ctx) -> Corr:
     corr = Corr("C14", "real files written to the scratch directory and loaded by the real Persistence.load: corpus, every "
                 "byte prefix of valid files (native, legacy, non-ASCII), every single-position mutation of valid file "
                 "values at every nesting level (replacement by null/bool/int/real/NaN/string/array/object values, member "
                 "removed, member added, key renamed), random JSON values (node-/child-shaped and arbitrary), "
                 "undecodable bytes, integer literals beyond the digit limit, nesting 100000 deep and 200-600 deep, missing "
-                "file, missing parent directory, empty file, a directory as path, loads into a non-empty registry; "
+                "file, missing parent directory, empty file, a directory as path, loads into a non-empty registry; directories "
+                "in which sibling files (backup / temporary / lock / editor-copy names, and every file the library's own "
+                "sessions leave behind) with truncated / undecodable / deeply nested / wrong-shape / empty / valid content "
+                "or a directory in their place stand next to a missing / empty / valid / damaged persistence file, loaded "
+                "through Persistence.load and through Gateway.__aenter__ (one sibling: every name x content; several at "
+                "once: random); "
                 "oracle = the outcome is success or PersistenceReadError, a missing file is created holding the current "
                 "registry, an empty file gives an empty registry; model compared on outcome, the class raised inside, and "
                 "the registry of successful loads, both with the file state classified by the harness (real json.loads) "
@@ -1200,6 +1464,24 @@ def run_c14(ctx) -> Corr:
 
     special = asyncio.run(impl())
 
+    # the directory around the file: sibling files (backup / temporary / lock / editor copies, and whatever the library's
+    # own sessions leave behind) in every content class, next to a missing / empty / valid / damaged persistence file
+    async def dirs():
+        left: dict = {}
+        for k, via in ((1, "load"), (2, "load"), (3, "load"), (2, "gateway"), (3, "gateway")):
+            left.update(await sessions_leave(k, via, lambda i: sample_registry() if i % 2 == 0 else {2: Node(2, 17, "2.0")}))
+        cases = dir_scenarios(lib.rng_for(ctx.seed, "c14-dir"), ctx.tier, base_texts[0], base_texts[1], left)
+        for c in cases:
+            await run_dir_case(c)
+        return left, cases
+
+    left, dir_cases = asyncio.run(dirs())
+    corr.count("directory: files the library's own sessions left next to the persistence file", len(left))
+    corr.notes.append("directory scenarios (sibling files next to the persistence file): judged by C14's oracle; the Lean model has no "
+                      "operation for sibling files, so the model is asked for the outcome of the persistence file ALONE (file <state> / "
+                      "loadinto) and the comparison says that sibling files do not change the outcome; files left by the library's own "
+                      f"sessions on this tree: {sorted(left) or 'none'}")
+
     batch = Batch()
     handles = []
     byte_handles = []
@@ -1267,10 +1549,60 @@ def run_c14(ctx) -> Corr:
         else:
             sp_handles.append(None)
 
+    dir_handles = []
+    for c in dir_cases:
+        mlabel, mdata = c["main"]
+        out = c["out"]
+        corr.count("directory:" + c["label"])
+        corr.count("directory main:" + mlabel)
+        corr.count("directory via:" + ("Persistence.load" if c["via"] == "load" else "Gateway.__aenter__"))
+        for _kind, _name, clabel, _cdata in c["siblings"]:
+            corr.count("directory sibling:" + clabel)
+        corr.count("directory outcome:" + (" ".join(out.split(" ")[:3]) if not out.startswith("ok") else "ok"))
+        # ---- oracle
+        judge_dir_case(corr, c)
+        rec = dir_case_record(c)
+        corr.case(("directory", mlabel, tuple((name, clabel) for _k, name, clabel, _d in c["siblings"]), c["via"], c["into"], c["newer"]),
+                  bool(c["siblings"]), {"label": rec["label"], "steps": rec["steps"]})
+        # ---- model: the outcome of the persistence file alone
+        h, state = None, None
+        if ctx.model_ok:
+            if mdata is None:
+                state, val = "missing", None
+            elif isinstance(mdata, str):
+                state, val = "unreadable", None
+            else:
+                state, val = classify(mdata)
+            if state == "value":
+                if not (json_has_surrogate(val) or json_depth(val) > 700):
+                    for op in c["pre_ops"]:
+                        batch.ask(op)
+                    h = batch.ask("loadinto " + json_tokens(val))
+            else:
+                for op in c["pre_ops"]:
+                    batch.ask(op)
+                h = batch.ask("file " + state)
+        dir_handles.append((h, state))
+
     if not ctx.model_ok:
         return corr
     check_boolean_tables(corr)
     batch.run()
+    for c, (h, state) in zip(dir_cases, dir_handles):
+        if h is None:
+            continue
+        mo, _, mcreated = batch[h].partition(" created=")
+        if mo != c["out"]:
+            corr.disagree("load outcome with sibling files in the directory (model: the outcome of the persistence file alone)",
+                          {**dir_case_record(c), "impl": c["out"][:800], "model": mo[:800]})
+        elif state == "missing" and c["snap"] is not None:
+            try:
+                created = json.loads(c["snap"].decode("utf-8"))
+            except ValueError:
+                created = None
+            if created is None or not jeq(parse_model_json(mcreated), created):
+                corr.disagree("file created for a missing path (sibling files in the directory)",
+                              {**dir_case_record(c), "impl": c["snap"][:800].decode("utf-8", "replace"), "model": mcreated[:800]})
     for (label, data, cur), (out, before), (h, state) in zip(files, results, handles):
         if h is None:
             continue
